@@ -16,6 +16,7 @@ from __future__ import annotations
 import cmath
 import itertools
 import math
+import warnings
 from datetime import datetime, timedelta
 from fractions import Fraction
 
@@ -23,9 +24,10 @@ import numpy as np
 
 from core.common import f2b, b2f, close
 from core import impl as I
+from core import simcase as S
 
 ID = "C18"
-LEAN_MODULES = ["AcnProofs.C18"]
+LEAN_MODULES = ["AcnProofs.C18", "AcnProofs.C18Sim"]
 TIE_MODULES = ["AcnProofs.Lemmas.CodeTieAnalysis"]
 DRIVER = "drv_C18"
 REQUIRED_THEOREMS = [
@@ -34,6 +36,15 @@ REQUIRED_THEOREMS = [
     "Acn.C18.constraint_currents_keys", "Acn.C18.constraint_currents_mag_named",
     "Acn.C18.energy_metrics_def", "Acn.C18.nema_def", "Acn.C18.energy_cost_def",
     "Acn.C18.demand_charge_def", "Acn.C18.datetimes_def", "Acn.C18.spec_defs_are_sums",
+    # the analysis on the SIMULATED trajectory of the full simulator model (AcnProofs/C18Sim.lean)
+    "Acn.C18Sim.sim_aggregate_current", "Acn.C18Sim.sim_peak_is_max_aggregate_current",
+    "Acn.C18Sim.sim_aggregate_power", "Acn.C18Sim.sim_total_energy_eq_integral", "Acn.C18Sim.complete_run_facts",
+    "Acn.C18Sim.sim_total_energy_complete", "Acn.C18Sim.proportion_le_one_of_le_requested",
+    "Acn.C18Sim.sim_proportion_le_one", "Acn.C18Sim.sim_proportion_le_one_complete",
+    "Acn.C18Sim.sim_demands_met_mono", "Acn.C18Sim.sim_datetimes", "Acn.C18Sim.sim_datetimes_complete",
+    "Acn.C18Sim.sim_constraint_current_within_limit_partial",
+    "Acn.C18Sim.sim_constraint_currents_within_limit_partial",
+    "Acn.C18Sim.current_unbalance_keywords", "Acn.C18Sim.pick_tariff_spec",
 ]
 BUDGET = {"quick": 100, "thorough": 900, "search": 400}
 TRUSTED = [
@@ -211,10 +222,58 @@ def _gen_queries(rng, names, T, sites_phases=None, ghosts=()):
         triples.append([])
     for tr in triples:
         qs.append({"q": "nema", "ids": tr})
+    # the keywords of current_unbalance: `unbalance_type` (only "NEMA" is accepted) and the deprecated `type`, which
+    # REPLACES unbalance_type when it is not None
+    good = triples[0] if triples and len(triples[0]) == 3 else [rng.choice(names) for _ in range(3)]
+    for ut, ty in [("NEMA", "NEMA"), ("NEMA", rng.choice(["IEC", "nema", "", "IEEE"])), ("IEC", "NEMA"),
+                   (rng.choice(["IEC", "nema", "Nema "]), None), ("IEC", rng.choice(["IEEE", "x"]))]:
+        qs.append({"q": "nema", "ids": list(good), "ut": ut, "type": ty})
     for tn in rng.sample(TARIFFS, 2):
         qs.append({"q": "cost", "tariff": tn})
         qs.append({"q": "dc", "tariff": tn})
+    # no tariff argument: the tariff comes from sim.signals["tariff"] (or there is no pricing method)
+    qs.append({"q": "cost", "tariff": None})
+    qs.append({"q": "dc", "tariff": None})
     return qs
+
+
+def _gen_signals(rng):
+    """`signals=` of the Simulator: absent (None), a dict without a tariff, a dict with one"""
+    r = rng.random()
+    if r < 0.2:
+        return None
+    if r < 0.4:
+        return {"tariff": None}
+    return {"tariff": rng.choice(TARIFFS)}
+
+
+def _gen_simscript(rng, stations, sessions):
+    """a scheduler INSIDE the domain of the full simulator model (lean/AcnModel/Sim.lean): period -> schedule dict
+    (any subset of the stations, occupied or not, active EV or not; 1-3 periods long; pilots the EVSEs accept),
+    `default` in the other periods; in 45 % of the cases schedule() raises once in some period k: the analysis is
+    called on the UNFINISHED simulation and run() is called again"""
+    last = max(x["departure"] for x in sessions)
+
+    def pilot(st):
+        return rng.choice([0, st["max"], st["max"], round(rng.uniform(0, st["max"]), 2), 8, 6.5])
+
+    def sched(n):
+        sub = [st for st in stations if rng.random() < 0.8] or [rng.choice(stations)]
+        rng.shuffle(sub)
+        return [[st["id"], [pilot(st) for _ in range(n)]] for st in sub]
+
+    script = [{"t": t, "sched": sched(rng.choice([1, 1, 2, 3]))} for t in range(last + 1) if rng.random() < 0.85]
+    out = {"t": "simscript", "default": sched(rng.choice([1, 2])), "script": script,
+           "max_recompute": rng.choice([1, 1, 1, None, 3])}
+    if rng.random() < 0.45:
+        k = rng.choice([x["arrival"] for x in sessions] + [rng.randint(0, last), last])
+        ent = next((e for e in script if e["t"] == k), None)
+        if ent is None:
+            ent = {"t": k, "sched": sched(1)}
+            script.append(ent)
+            script.sort(key=lambda e: e["t"])
+        ent["fail"] = True
+    return out
 
 
 COEFFS = [1, 1, 1, -1, -1, 2, -2, 0.5, -0.5, 0.25, 0, 3]
@@ -457,8 +516,11 @@ def _gen_custom(rng, tier):
     k = rng.randint(2, 6)
     build, state, ghosts, tail = _gen_history(rng, ids, k)
     sessions = _gen_sessions(rng, ids, horizon, min(n, 8))
-    if rng.random() < 0.5:
+    r = rng.random()
+    if r < 0.3:
         sched = {"t": "uncontrolled"}
+    elif r < 0.8:
+        sched = _gen_simscript(rng, stations, sessions)
     else:
         sched = {"t": "scripted", "pilots": {s["id"]: [rng.choice([0, s["max"], round(rng.uniform(0, s["max"]), 2), 8, 6.5])
                                                       for _ in range(horizon)] for s in stations}}
@@ -467,7 +529,7 @@ def _gen_custom(rng, tier):
     names = [x[0] for x in final]
     return {"kind": "custom", "stations": stations, "build": build, "post": post,
             "early": _gen_early(rng, [x[0] for x in state]) if post else [],
-            "sessions": sessions,
+            "sessions": sessions, "signals": _gen_signals(rng),
             "period": rng.choice([1, 5, 5, 15, 3, 60, 0.5, 2.5]), "start": _gen_start(rng), "sched": sched,
             "thresholds": [0.1, 0, 1e-3, rng.choice([0.5, 5, 50, -1])],
             "queries": _gen_queries(rng, names, T, ghosts=[g for g in ghosts2 if g not in names])}
@@ -512,7 +574,7 @@ def _gen_site(rng, tier):
             phases.append(list(reversed(cand)))
     return {"kind": "site", "site": site, "voltage": voltage, "build": build, "post": post,
             "early": _gen_early(rng, [x[0] for x in state]) if post else [],
-            "sessions": sessions,
+            "sessions": sessions, "signals": _gen_signals(rng),
             "period": rng.choice([5, 5, 1, 15]), "start": _gen_start(rng), "sched": {"t": "uncontrolled"},
             "thresholds": [0.1, 0, rng.choice([0.5, 5, 50])],
             "queries": _gen_queries(rng, names, T, phases, ghosts=[g for g in ghosts if g not in names])}
@@ -609,6 +671,18 @@ def _c(z):
     return [float(np.real(z)), float(np.imag(z))]
 
 
+def _signals_after(case):
+    """`sim.signals` when the analysis is called: what the case passed as `signals=`; a Simulator JSON round trip keeps
+    natively serialisable signals only (simulator.py:372-404: a tariff OBJECT is dropped, with a warning, and the
+    attribute comes back as None)"""
+    sg = case.get("signals")
+    if sg is None:
+        return None
+    if sg.get("tariff") and any(op["op"] == "simjson" for op in case.get("post", [])):
+        return None
+    return sg
+
+
 def _err(e):
     if isinstance(e, IndexError):
         return "IndexError"
@@ -661,7 +735,7 @@ def run_impl(case):
 
     if case["sched"]["t"] == "uncontrolled":
         sch = UncontrolledCharging()
-    else:
+    elif case["sched"]["t"] == "scripted":
         pilots = case["sched"]["pilots"]
 
         class Scripted(BaseAlgorithm):
@@ -674,10 +748,46 @@ def run_impl(case):
                 return {s.station_id: [pilots[s.station_id][t % len(pilots[s.station_id])]] for s in active_sessions}
 
         sch = Scripted()
+    if case["sched"]["t"] == "simscript":
+        sch = S.ScriptedAlgo(case["sched"]["script"], case["sched"]["default"])
+        sch.max_recompute = case["sched"].get("max_recompute")
     start = _start_dt(case["start"])
-    sim = Simulator(net, sch, queue, start, period=case["period"], verbose=False)
-    sim.run()
+    tariffs = {}
+
+    def tariff(tn):
+        if tn not in tariffs:
+            tariffs[tn] = TimeOfUseTariff(tn)
+        return tariffs[tn]
+
+    sg = case.get("signals")
+    kw = {}
+    if sg is not None:
+        kw["signals"] = {"tariff": tariff(sg["tariff"])} if sg.get("tariff") else {}
+    sim = Simulator(net, sch, queue, start, period=case["period"], verbose=False, **kw)
+    epoch = np.datetime64("1970-01-01T00:00:00.000000")
+
+    def dt_call():
+        """datetimes_array(sim) with its warning recorded"""
+        with warnings.catch_warnings(record=True) as w:
+            warnings.simplefilter("always")
+            d = analysis.datetimes_array(sim)
+        return {"us": [int((x - epoch) / np.timedelta64(1, "us")) for x in d],
+                "warned": any(issubclass(x.category, UserWarning) and "incomplete" in str(x.message) for x in w),
+                "iter": int(sim.iteration), "queue_empty": bool(sim.event_queue.empty())}
+
+    pre = dt_call()                       # before run(): nothing simulated yet
+    unfinished = None
+    try:
+        sim.run()
+    except S.SchedulerFailure:
+        # the analysis of an UNFINISHED simulation, then run() is called again (C02 / C09: it resumes)
+        unfinished = dt_call()
+        unfinished["agg_current"] = [float(x) for x in analysis.aggregate_current(sim)]
+        unfinished["peak"] = float(sim.peak)
+        sim.run()
     assert sim.event_queue.empty()
+    peak = float(sim.peak)
+    P = np.array(sim.pilot_signals, dtype=float).tolist()
 
     def cc_call(req, mag, as_tuple=False):
         # NOTE the flag's polarity is inverted in the code (DESIGN §8): True -> complex
@@ -715,11 +825,12 @@ def run_impl(case):
         "M_dtype": str(np.asarray(net.constraint_matrix).dtype),
         "names0": names0, "M0": M0,
     }
-    epoch = np.datetime64("1970-01-01T00:00:00.000000")
     naive = start.replace(tzinfo=None)
+    raw["peak"], raw["P"] = peak, P
+    raw["limits"] = [float(x) for x in net.magnitudes]
     raw["start_us"] = int((np.datetime64(naive) - epoch) / np.timedelta64(1, "us"))
 
-    obs = {"raw": raw, "early": early}
+    obs = {"raw": raw, "early": early, "pre": pre, "unfinished": unfinished}
     obs["agg_current"] = [float(x) for x in analysis.aggregate_current(sim)]
     obs["agg_power"] = [float(x) for x in analysis.aggregate_power(sim)]
     obs["tot_req"] = float(analysis.total_energy_requested(sim))
@@ -745,11 +856,11 @@ def run_impl(case):
         obs["met_default"] = _undef(analysis.proportion_of_demands_met(sim))
     except Exception as e:  # noqa
         obs["met_default"] = {"err": _err(e)}
-    dts = analysis.datetimes_array(sim)
-    obs["datetimes_us"] = [int((d - epoch) / np.timedelta64(1, "us")) for d in dts]
+    fin = dt_call()
+    obs["datetimes_us"] = fin["us"]
+    obs["datetimes_warned"] = fin["warned"]
 
     answers = []
-    tariffs = {}
     for q in case["queries"]:
         kind = q["q"]
         try:
@@ -760,19 +871,41 @@ def run_impl(case):
                                            time_indices=None if q["ti"] is None else list(q["ti"]))
                 a = {"ok": [[_c(x) for x in row] for row in np.asarray(m)]}
             elif kind == "nema":
-                u = analysis.current_unbalance(sim, list(q["ids"]))
-                a = {"ok": [I.enc(float(x)) for x in u]}
+                kws = {}
+                if "ut" in q:
+                    kws["unbalance_type"] = q["ut"]
+                if q.get("type") is not None:
+                    kws["type"] = q["type"]
+                with warnings.catch_warnings(record=True) as w:
+                    warnings.simplefilter("always")
+                    try:
+                        u = analysis.current_unbalance(sim, list(q["ids"]), **kws)
+                        a = {"ok": [I.enc(float(x)) for x in u]}
+                    except (KeyError, IndexError, ValueError, ZeroDivisionError, TypeError) as e:
+                        a = {"err": _err(e)}
+                a["deprecation"] = any(issubclass(x.category, DeprecationWarning) for x in w)
             elif kind in ("cost", "dc"):
-                tn = q["tariff"]
-                if tn not in tariffs:
-                    tariffs[tn] = TimeOfUseTariff(tn)
-                tar = tariffs[tn]
-                if kind == "cost":
-                    a = {"ok": float(analysis.energy_cost(sim, tar)),
-                         "prices_vec": [float(p) for p in tar.get_tariffs(sim.start, R.shape[1], sim.period)],
-                         "prices_scalar": [float(tar.get_tariff(start + timedelta(minutes=case["period"] * t))) for t in range(R.shape[1])]}
-                else:
-                    a = {"ok": float(analysis.demand_charge(sim, tar)), "dc": float(tar.get_demand_charge(start))}
+                # the model's inputs: what the argument's tariff and the signal's tariff say (by NAME, fresh lookups)
+                sga = _signals_after(case)
+                names_ = {"arg": q["tariff"], "sig": (sga or {}).get("tariff")}
+                a = {}
+                for tag, tn in names_.items():
+                    if tn:
+                        a["prices_" + tag] = [float(p) for p in tariff(tn).get_tariffs(start, R.shape[1], case["period"])]
+                        a["dc_" + tag] = float(tariff(tn).get_demand_charge(start))
+                eff = names_["arg"] or names_["sig"]
+                if eff:
+                    a["prices_scalar"] = [float(tariff(eff).get_tariff(start + timedelta(minutes=case["period"] * t)))
+                                          for t in range(R.shape[1])]
+                    a["dc"] = a["dc_arg"] if names_["arg"] else a["dc_sig"]
+                arg = tariff(q["tariff"]) if q["tariff"] else None
+                try:
+                    if kind == "cost":
+                        a["ok"] = float(analysis.energy_cost(sim, arg) if arg is not None else analysis.energy_cost(sim))
+                    else:
+                        a["ok"] = float(analysis.demand_charge(sim, arg) if arg is not None else analysis.demand_charge(sim))
+                except (KeyError, IndexError, ValueError, ZeroDivisionError, TypeError) as e:
+                    a["err"] = _err(e)
             else:
                 raise RuntimeError(kind)
         except (KeyError, IndexError, ValueError, ZeroDivisionError, TypeError) as e:
@@ -801,18 +934,17 @@ def model_request(case, obs):
         elif q["q"] == "net":
             qs.append({"q": "net", "req": q["req"], "ti": q["ti"]})
         elif q["q"] == "nema":
-            qs.append({"q": "nema", "ids": q["ids"]})
+            qs.append({"q": "nema", "ids": q["ids"], "ut": q.get("ut", "NEMA"), "type": q.get("type")})
         elif q["q"] == "cost":
-            if "prices_vec" in a:
-                qs.append({"q": "cost", "prices": [f2b(p) for p in a["prices_vec"]]})
-            else:
-                qs.append({"q": "met"})
+            qs.append({"q": "cost", "signals": _signals_after(case) is not None,
+                       "prices_arg": [f2b(p) for p in a["prices_arg"]] if "prices_arg" in a else None,
+                       "prices_sig": [f2b(p) for p in a["prices_sig"]] if "prices_sig" in a else None})
         elif q["q"] == "dc":
-            if "dc" in a:
-                qs.append({"q": "dc", "dc": f2b(a["dc"])})
-            else:
-                qs.append({"q": "met"})
+            qs.append({"q": "dc", "signals": _signals_after(case) is not None,
+                       "dc_arg": f2b(a["dc_arg"]) if "dc_arg" in a else None,
+                       "dc_sig": f2b(a["dc_sig"]) if "dc_sig" in a else None})
     return {
+        "sim": _sim_request(case),
         "T": raw["T"], "R": [[f2b(x) for x in row] for row in raw["R"]], "V": [f2b(x) for x in raw["V"]],
         "c": [f2b(x) for x in raw["cos"]], "s": [f2b(x) for x in raw["sin"]],
         "M": [[f2b(x) for x in row] for row in raw["M"]], "names": raw["names"],
@@ -820,6 +952,25 @@ def model_request(case, obs):
         "start": f2b(raw["start_us"] / 6e7), "period": f2b(raw["period"]), "iters": raw["iteration"],
         "thresholds": [f2b(t) for t in obs["thresholds"]], "queries": qs,
     }
+
+
+def _sim_case(case):
+    """the scenario in the vocabulary of core.simcase (None when it lies outside the domain of the simulator model:
+    real algorithms, shipped sites)"""
+    if case["kind"] != "custom" or case["sched"]["t"] != "simscript":
+        return None
+    return {"stations": [{"id": st["id"], "kind": {"t": "cont", "min": 0, "max": st["max"]}, "V": st["V"]}
+                         for st in case["stations"]],
+            "sessions": case["sessions"], "recomputes": [], "period": case["period"],
+            "max_recompute": case["sched"].get("max_recompute"), "noise": [],
+            "sched": {"type": "scripted", "default": case["sched"]["default"], "script": case["sched"]["script"]}}
+
+
+def _sim_request(case):
+    sc = _sim_case(case)
+    if sc is None:
+        return None
+    return S.model_request(sc, resume=any(e.get("fail") for e in sc["sched"]["script"]))
 
 
 def _cl(a, b):
@@ -837,6 +988,59 @@ def _mres(m, conv):
 
 
 def compare(case, obs, model):
+    out = _compare_analysis(case, obs, model, "")
+    ms = model.get("sim")
+    if (ms is None) != (_sim_case(case) is None):
+        out.append(f"simulator model: answer {'missing' if ms is None else 'unexpected'}")
+    if ms is None:
+        return out
+    # ---- the scenario through the FULL SIMULATOR MODEL: its trajectory against the implementation's ...
+    raw = obs["raw"]
+    if ms["err"] is not None or not ms["queue_empty"]:
+        out.append(f"simulator model: run ended with err={ms['err']} queue_empty={ms['queue_empty']}; the implementation completed")
+        return out
+    if ms["iter"] != raw["iteration"] or ms["width"] != raw["T"]:
+        out.append(f"simulator model: iteration/width impl={raw['iteration']}/{raw['T']} model={ms['iter']}/{ms['width']}")
+    mr = [[b2f(x) for x in row] for row in ms["rates"]]
+    if len(mr) != len(raw["R"]) or not all(_cl(a, b) for a, b in zip(raw["R"], mr)):
+        out.append("simulator model: charging_rates differ from the implementation's")
+    mp = [[b2f(x) for x in row] for row in ms["pilots"]]
+    if len(mp) != len(raw["P"]) or not all(_cl(a, b) for a, b in zip(raw["P"], mp)):
+        out.append("simulator model: pilot_signals differ from the implementation's")
+    if not close(raw["peak"], b2f(ms["peak"])):
+        out.append(f"simulator model: peak impl={raw['peak']} model={b2f(ms['peak'])}")
+    if sorted(ms["ev_history"]) != sorted(e[0] for e in raw["evs"]):
+        out.append(f"simulator model: ev_history keys impl={[e[0] for e in raw['evs']]} model={ms['ev_history']}")
+    if ms["warns"] != obs["datetimes_warned"]:
+        out.append(f"datetimes_array warning on the finished run: impl={obs['datetimes_warned']} model={ms['warns']}")
+    # ... the model-side ledger equalities, executed (C02 through the analysis functions) ...
+    led = ms["ledger"]
+    if not close(b2f(led["sum_delivered"]), b2f(led["integral"])):
+        out.append(f"simulator model: sum of delivered energies {b2f(led['sum_delivered'])} != integral of aggregate power {b2f(led['integral'])}")
+    if not close(b2f(led["peak_spec"]), b2f(ms["peak"])):
+        out.append(f"simulator model: peak {b2f(ms['peak'])} != running maximum of the aggregate current {b2f(led['peak_spec'])}")
+    if not close(b2f(ms["analysis"]["tot_del"]), b2f(led["integral"])):
+        out.append(f"simulator model: total_energy_delivered {b2f(ms['analysis']['tot_del'])} != integral {b2f(led['integral'])}")
+    # ... the unfinished simulation ...
+    un, mf = obs.get("unfinished"), ms.get("first")
+    if (un is None) != (mf is None):
+        out.append(f"interrupted run: impl={'raised' if un else 'did not raise'} model={'raised' if mf else 'did not raise'}")
+    elif un is not None:
+        if mf["err"] != "SchedulerFailed" or mf["iter"] != un["iter"] or mf["queue_empty"] != un["queue_empty"]:
+            out.append(f"interrupted run: impl iter={un['iter']} queue_empty={un['queue_empty']} model={mf['err']} iter={mf['iter']} queue_empty={mf['queue_empty']}")
+        if mf["warns"] != un["warned"]:
+            out.append(f"datetimes_array on the unfinished simulation: warning impl={un['warned']} model={mf['warns']}")
+        md = [b2f(x) * 6e7 for x in mf["datetimes"]]
+        if len(md) != len(un["us"]) or any(abs(x - y) > 60 for x, y in zip(md, un["us"])):
+            out.append(f"datetimes_array on the unfinished simulation: impl {len(un['us'])} entries {un['us'][:3]}… model {len(md)} entries {md[:3]}…")
+        if not _cl(un["agg_current"], [b2f(x) for x in mf["agg_current"]]) or not close(un["peak"], b2f(mf["peak"])):
+            out.append("unfinished simulation: aggregate_current / peak differ")
+    # ... and every analysis value on the MODEL'S OWN trajectory against the implementation's answers
+    out.extend(_compare_analysis(case, obs, ms["analysis"], "[on the simulator model's trajectory] "))
+    return out[:20]
+
+
+def _compare_analysis(case, obs, model, tag):
     out = []
     for key in ("agg_current", "agg_power"):
         mv = [b2f(x) for x in model[key]]
@@ -908,7 +1112,7 @@ def compare(case, obs, model):
         elif q["q"] == "dc":
             if not close(a["ok"], b2f(res["ok"])):
                 out.append(f"{where}: impl={a['ok']} model={b2f(res['ok'])}")
-    return out
+    return [tag + x for x in out]
 
 
 # ------------------------------------------------------------------ property oracle
@@ -1016,6 +1220,67 @@ def oracle(case, obs):
     if len(got) != len(want) or any(abs(g - w) > 1 for g, w in zip(got, want)):
         fails.append({"kind": "datetimes_wrong", "detail": f"len={len(got)} expected len={len(want)}; first={got[:3]} expected={[float(w) for w in want[:3]]}"})
 
+    # ---- the analysis against the SIMULATED trajectory (C02's ledger, C01's horizon, through the analysis functions)
+    it = raw["iteration"]
+    if obs.get("datetimes_warned"):
+        fails.append({"kind": "datetimes_warns_on_finished_run", "detail": "event queue empty, UserWarning raised"})
+    pre = obs.get("pre")
+    if pre is not None and (pre["us"] or pre["iter"] != 0 or pre["warned"] != (not pre["queue_empty"])):
+        fails.append({"kind": "datetimes_before_run_wrong", "detail": f"before run(): {pre}"})
+    un = obs.get("unfinished")
+    if un is not None:
+        kf = [e["t"] for e in case["sched"]["script"] if e.get("fail")]
+        wantu = [raw["start_us"] + _F(raw["period"]) * t * 60_000_000 for t in range(un["iter"])]
+        if un["iter"] not in kf:
+            fails.append({"kind": "interrupted_in_wrong_period", "detail": f"schedule() raised in period {kf}, iteration={un['iter']}"})
+        if len(un["us"]) != len(wantu) or any(abs(g - w) > 1 for g, w in zip(un["us"], wantu)):
+            fails.append({"kind": "datetimes_unfinished_wrong",
+                          "detail": f"unfinished simulation, {un['iter']} periods simulated so far: {len(un['us'])} datetimes {un['us'][:3]}…"})
+        if un["warned"] != (not un["queue_empty"]):
+            fails.append({"kind": "datetimes_unfinished_warning_wrong",
+                          "detail": f"queue_empty={un['queue_empty']} warned={un['warned']}"})
+        if not close(un["peak"], max([0.0] + un["agg_current"][:un["iter"]])):
+            fails.append({"kind": "peak_not_max_aggregate_current",
+                          "detail": f"unfinished simulation at iteration {un['iter']}: sim.peak={un['peak']} aggregate_current={un['agg_current'][:un['iter']]}"})
+        if any(x != 0 for x in un["agg_current"][un["iter"]:]):
+            fails.append({"kind": "unfinished_future_current_nonzero", "detail": f"iteration={un['iter']} agg={un['agg_current']}"})
+    if "peak" in raw:
+        # Simulator.peak = max(0, max over the simulated periods of aggregate_current)       (C02.peak_eq_max)
+        wantp = max([0.0] + [float(x) for x in obs["agg_current"][:it]])
+        if not close(raw["peak"], wantp):
+            fails.append({"kind": "peak_not_max_aggregate_current", "detail": f"sim.peak={raw['peak']} max aggregate_current={wantp}"})
+        # total_energy_delivered = sum_t aggregate_power[t] * period / 60                     (C02.total_energy_eq_integral)
+        integ = float(sum(_F(x) for x in obs["agg_power"]) * _F(raw["period"]) / 60)
+        if not close(obs["tot_del"], integ, 1e-8):
+            fails.append({"kind": "energy_delivered_not_integral_of_power",
+                          "detail": f"total_energy_delivered={obs['tot_del']} integral of aggregate_power={integ}"})
+        # each session: delivered = its station's row over [arrival, departure)              (C02.session_energy_interval_complete)
+        by_id = {e[0]: e for e in raw["evs"]}
+        for x in case["sessions"]:
+            if x["session"] in by_id and x["station"] in row_of:
+                wantd = float(sum(_F(rate_of(x["station"], t)) for t in range(x["arrival"], min(x["departure"], T)))
+                              * _F(st[x["station"]][0]) / 1000 * _F(raw["period"]) / 60)
+                if not close(by_id[x["session"]][2], wantd, 1e-8):
+                    fails.append({"kind": "session_energy_not_row_sum",
+                                  "detail": f"{x['session']}: energy_delivered={by_id[x['session']][2]} row sum={wantd}"})
+                    break
+        if any(R[i][t] != 0 for i in range(len(R)) for t in range(it, T)):
+            fails.append({"kind": "rates_recorded_beyond_iteration", "detail": f"iteration={it} T={T}"})
+    if len(got) != it:
+        fails.append({"kind": "datetimes_wrong", "detail": f"{len(got)} datetimes, {it} periods simulated"})
+    # proportion delivered within [0, 1] when no session got more than it asked for; = 1 iff every request was met
+    if treq > 0 and "ok" in obs["prop"] and all(e[2] <= e[1] for e in evs) and all(e[2] >= 0 for e in evs):
+        pr = obs["prop"]["ok"]
+        if not (-1e-12 <= pr <= 1 + 1e-12) or ((abs(pr - 1) < 1e-15) != all(close(e[1], e[2], 1e-15) for e in evs)
+                                               and not any(0 < abs(e[1] - e[2]) < 1e-9 * max(1, treq) for e in evs)):
+            fails.append({"kind": "proportion_delivered_out_of_range", "detail": f"proportion={pr} evs={evs[:5]}"})
+    # proportion_of_demands_met is monotone in the threshold
+    pts = sorted((t, a["ok"]) for t, a in zip(obs["thresholds"], obs["met"]) if "ok" in a)
+    for (t1, m1), (t2, m2) in zip(pts, pts[1:]):
+        if m2 < m1 - 1e-12:
+            fails.append({"kind": "demands_met_not_monotone", "detail": f"threshold {t1} -> {m1}, {t2} -> {m2}"})
+            break
+
     names = raw["names"]
     if sorted(names) != sorted(cons):
         fails.append({"kind": "constraint_set_not_as_edited",
@@ -1044,6 +1309,18 @@ def oracle(case, obs):
         fails.append({"kind": "constraint_currents_raised", "detail": f"constraint_currents(sim): {obs['cc_default']}"})
     elif len(set(names)) == len(names):
         check_dict("constraint_currents(sim)", obs["cc_default"], None, True)
+    if "P" in raw and not isinstance(obs["cc_default"], dict) and len(set(names)) == len(names):
+        # C06/C07 link: wherever the APPLIED pilots respect a constraint's linear bound (sum |a_j| pilot_j <= limit) the
+        # magnitude of the constraint current of the RECORDED rates is within the limit (0 <= rate <= pilot)
+        Pm = raw["P"]
+        for k, v in obs["cc_default"]:
+            lim = raw["limits"][names.index(k)]
+            for t in range(min(raw["iteration"], len(v), len(Pm[0]) if Pm else 0)):
+                lin = sum(abs(a) * Pm[row_of[sid]][t] for sid, a in cons[k].items())
+                if lin <= lim and v[t] > lim * (1 + 1e-9) + 1e-9:
+                    fails.append({"kind": "constraint_current_exceeds_limit_under_feasible_pilots",
+                                  "detail": f"constraint {k!r} period {t}: pilots' linear aggregate {lin} <= limit {lim} but |I| = {v[t]}"})
+                    break
     if case.get("early"):
         _, cons_early = _net_by_name(case, raw, early=True)
         for i, (q, a) in enumerate(zip(case["early"], obs.get("early", []))):
@@ -1082,6 +1359,13 @@ def oracle(case, obs):
                     break
         elif q["q"] == "nema":
             idsq = q["ids"]
+            eff = q["type"] if q.get("type") is not None else q.get("ut", "NEMA")
+            if a.get("deprecation", False) != (q.get("type") is not None):
+                fails.append({"kind": "nema_deprecation_warning_wrong", "detail": f"{where}: DeprecationWarning={a.get('deprecation')}"})
+            if eff != "NEMA":
+                if a.get("err") != "ValueError":
+                    fails.append({"kind": "unbalance_type_not_refused", "detail": f"{where}: effective type {eff!r}: {str(a)[:160]}"})
+                continue
             if any(p not in names for p in idsq):
                 if "err" not in a:
                     fails.append({"kind": "nema_unknown_phase_accepted", "detail": f"{where}: {str(a)[:200]}"})
@@ -1116,6 +1400,12 @@ def oracle(case, obs):
                 if not close(got[t], want, 1e-7):
                     fails.append({"kind": "nema_wrong", "detail": f"{where}: t={t} got={got[t]} expected={want} magnitudes={mags}"})
                     break
+        elif q["q"] in ("cost", "dc") and q["tariff"] is None and not (_signals_after(case) or {}).get("tariff"):
+            # no tariff argument and none in sim.signals: "No pricing method is specified" (a Simulator built without
+            # `signals=` has signals None; the code's membership test then raises TypeError — accepted, reported as a feature)
+            want_err = ["ValueError"] if _signals_after(case) is not None else ["ValueError", "TypeError"]
+            if a.get("err") not in want_err:
+                fails.append({"kind": "cost_without_pricing_method_accepted", "detail": f"{where}: {str(a)[:160]}"})
         elif q["q"] == "cost":
             if "err" in a:
                 fails.append({"kind": "energy_cost_raised", "detail": f"{where}: {a}"})
@@ -1186,6 +1476,16 @@ def features(case, obs):
     if "raw" not in obs:
         return out + ["impl_exception"]
     raw = obs["raw"]
+    sg = _signals_after(case)
+    out.append("signals:" + ("None" if sg is None else "tariff" if sg.get("tariff") else "{}"))
+    out.append("sim-model:" + ("yes" if _sim_case(case) is not None else "no"))
+    if case["sched"]["t"] == "simscript":
+        out.append("max_recompute:" + str(case["sched"].get("max_recompute")))
+        un = obs.get("unfinished")
+        out.append("interrupted:" + ("no" if un is None else "last-period" if un["queue_empty"] else
+                                     "period-0" if un["iter"] == 0 else "mid-run"))
+    out.append("peak:" + ("0" if raw.get("peak") == 0 else "first-period" if raw.get("peak") == (obs["agg_current"] or [None])[0]
+                          else "later"))
     out.append("stations:" + (str(len(raw["station_ids"])) if len(raw["station_ids"]) <= 8 else ">8"))
     out.append("constraints:" + (str(len(raw["names"])) if len(raw["names"]) <= 6 else ">6"))
     out.append("periods:" + str(10 * (raw["T"] // 10)) + "+")
@@ -1209,6 +1509,10 @@ def features(case, obs):
             tag += ":mag" if q["mag"] else ":complex"
         elif q["q"] == "nema":
             tag += ":nan" if any(x == "nan" for x in a["ok"]) else ""
+            if "ut" in q:
+                tag += f":kw(ut={'NEMA' if q['ut'] == 'NEMA' else 'other'},type={'None' if q.get('type') is None else 'NEMA' if q['type'] == 'NEMA' else 'other'})"
+        elif q["q"] in ("cost", "dc"):
+            tag += ":argument" if q["tariff"] else ":from-signals"
         out.append(tag)
     if "err" in obs["prop"]:
         out.append("prop:" + obs["prop"]["err"])
